@@ -60,6 +60,8 @@ pub struct Diff {
     pub written_gprs: u32,
     /// memory accesses (address, size, is_write) per iced, with this case's register values
     pub accesses: Vec<(u64, u64, bool, bool)>,
+    /// first address at which an emulator area differs from its initial image after a successful step
+    pub emu_mem_changed: Option<u64>,
 }
 
 pub struct Engine {
@@ -285,6 +287,7 @@ impl Engine {
         let mut mism = vec![];
         let flag_mask = if valid { compared_flags(&ins, &pre) } else { 0 };
         let mut emu_regs = None;
+        let mut emu_mem_changed: Option<u64> = None;
         if let (Some((ax, meta_before)), Emu::Ok(_)) = (&axm, &emu) {
             let er = mach::ax_regs(ax);
             emu_regs = Some(er);
@@ -334,6 +337,15 @@ impl Engine {
                     }
                 }
             }
+            for (k, img) in images.iter() {
+                let d = ARENAS.iter().find(|d| d.kind == *k).unwrap();
+                if let Some(em) = ax.verif_area_data(d.base) {
+                    if em != img.as_slice() && emu_mem_changed.is_none() {
+                        let off = em.iter().zip(img.iter()).position(|(a, b)| a != b).unwrap_or(0);
+                        emu_mem_changed = Some(d.base + off as u64);
+                    }
+                }
+            }
             // emulator-side "nothing else changes"
             if ax.read_fs() != c.fs {
                 mism.push((Comp::Extra("fs-base-changed".into()), format!("fs base {:#x} -> {:#x}", c.fs, ax.read_fs())));
@@ -348,7 +360,7 @@ impl Engine {
                 mism.push((Comp::Extra("executed-count".into()), format!("executed count {} after one step", ax.verif_executed())));
             }
         }
-        Diff { ins, valid, emu, emu_regs, native, skip_native, mism, flag_mask, written_gprs, accesses }
+        Diff { ins, valid, emu, emu_regs, native, skip_native, mism, flag_mask, written_gprs, accesses, emu_mem_changed }
     }
 
     pub fn render(&self, c: &NCase) -> serde_json::Value {
